@@ -249,6 +249,9 @@ type vProbe struct {
 	yieldSub  bool // vYield inside SubscribeWithContext (widens the window for concurrent subscribers)
 	yieldEmit bool // vYield before each emission of a cold script (concurrent subscriptions interleave)
 	cold      bool
+	mlog      *[]vMStep // multi-source driver: what this probe emits by itself at subscription time is logged here
+	midx      int       // its source index there
+	panicTeardown bool // the teardown of every subscription of this probe panics (after doing its work)
 	asyncPlay bool // scripts are played from a thread of their own after Subscribe has returned
 	syncTerm  int  // if set: the next subscription emits this terminal synchronously inside Subscribe (once)
 	itemCtx   bool // attach a per-item marker to the context of each Next
@@ -283,6 +286,9 @@ func (p *vProbe) register(ctx context.Context, d Observer[int64]) (int, func()) 
 		p.torn[i]++
 		if p.torn[i] == 1 && !p.ended[i] {
 			p.live--
+		}
+		if p.panicTeardown {
+			panic(vErrB)
 		}
 	}
 }
@@ -329,6 +335,9 @@ func (p *vProbe) play(i int) {
 		for _, st := range p.script {
 			if p.yieldEmit {
 				vYield()
+			}
+			if p.mlog != nil {
+				*p.mlog = append(*p.mlog, vMStep{src: p.midx, kind: st.kind, v: st.v})
 			}
 			p.emitAt(i, st)
 		}
